@@ -364,3 +364,14 @@ def run(ctx):
     # "equally through BrownianPath, BrownianTree and ReverseBrownian": a wrapper is a view of one underlying object
     from . import c05
     ctx.guard(c05.r05_7)
+
+
+_run_before_replay = run
+
+
+def run(ctx):
+    _run_before_replay(ctx)
+    # small-model replay of the real tree: the interplay of cache, search hint, dependency tree, splitting and rounding over
+    # whole query histories, on exact rationals with symbolic noise (replay.py)
+    from . import replay_rules
+    ctx.guard(replay_rules.r03_9)
